@@ -26,6 +26,21 @@ Oracle (reference model models/cblock_model.py, written from docs/cblocks.rst):
 "Equal" is Python ==, types are observed only through functions the circuit itself applies
 (FuncBlock with repr / type names), DESIGN.md 3.3.
 
+Additions after the seeded-change round (seeded/C01-s1, C01-s3, C10-s3):
+ * 'false-instability': every generated network is acyclic (events included) and therefore
+   settles; an "instability" EdzedCircuitError raised before the simulator made 2 x (number
+   of all blocks) evaluations in that burst is a violation (docs/errors.rst: "propagates
+   through the whole circuit several times"; the code's constant is 3, so the real limit can
+   never be a false alarm); beyond the margin the run ends unjudged. The chain stratum of
+   the generator makes single bursts that need up to chain-length evaluations per CBlock.
+   Caught: limit = 3 x number of CBlocks (seeded C01-s1, 17-26 runs per quick tier).
+ * on_output events that fail with the documented non-fatal EdzedUnknownEvent for one edge
+   (EventCond): the sender of the external event gets the exception, the circuit stays
+   ready and must still agree when idle. Caught: set_output queues the block only after
+   its events were sent (seeded C01-s3).
+ * CBlocks whose inputs are all constants were already generated: seeded C10-s3 (initial
+   eval_set built from oconnections) is caught as idle-undef/*.
+
 Finding on the pinned tree (genuine, own signature C01/const-aliasing/equal-constants-share-
 one-Const, replay known/C01-F11-const-aliasing.json): edzed.Const caches its instances in a
 dict keyed by the value, so Const(1), Const(True) and Const(1.0) (also 0/False/0.0/-0.0, and
@@ -86,7 +101,7 @@ edzed = seams.install()
 
 PROP = 'C01'
 LEVEL = 'exploration'
-RUNS = {'quick': 30000, 'thorough': 2400000}
+RUNS = {'quick': 26000, 'thorough': 2000000}
 CHUNK = 500
 RULE = ("one run = one acyclic circuit + one history. Run indices 0..8095 of every batch walk "
         "the systematic stratum: all 8096 shapes of <=3 CBlocks (Not/And/Or/Xor, 1-2 inputs "
@@ -99,7 +114,15 @@ RULE = ("one run = one acyclic circuit + one history. Run indices 0..8095 of eve
         "circuits of 1-8 (thorough: -14) CBlocks of every library type over 1-4 Input/Counter "
         "sources incl. event-fed second-layer sources and an optional source with an "
         "asynchronous initialisation, 1-8 bursts of 1-4 external events, sends before the "
-        "initialisation is complete, explicit finalize() in 15 %. Non-trivial = at least one "
+        "initialisation is complete, explicit finalize() in 15 %; 20 % of them are feedback "
+        "chains q0 -> f0 => q1 -> f1 => ... of 2-6 event-fed sources with 1-6 wide CBlocks "
+        "that are evaluated again in every round and forwarders gated by wide blocks (one "
+        "external change needs up to chain length x evaluations per block in one burst), with "
+        "0-6 bystander sources; 20 % of the driver-only sources carry an on_output EventCond "
+        "event whose type is unknown to its destination for one edge (non-fatal "
+        "EdzedUnknownEvent out of ExtEvent.send, the output has changed); half of the blocks "
+        "of 60 % of the circuits get names from a pool with awkward ones ('temp'/'emp', "
+        "'out'/'ut', 'on', 'not_x', 'tnt', ...). Non-trivial = at least one "
         "CBlock output changed after wait_init() returned. Distinct = hash of (circuit shape "
         "without values, per driver action the sequence of evaluated blocks).")
 REACH_EXPECTED = ['glitch_reevaluation', 'burst_of_several_changes',
@@ -108,7 +131,10 @@ REACH_EXPECTED = ['glitch_reevaluation', 'burst_of_several_changes',
                   'shortcut_shared', 'name_ref_to_later_block', 'empty_group', 'unpack_off',
                   'equal_constants_of_different_type', 'reconvergent_fanout',
                   'send_before_init_done', 'send_during_async_init', 'systematic_small_shape',
-                  'repeated_reference', 'explicit_finalize']
+                  'repeated_reference', 'explicit_finalize',
+                  'nonfatal_unknown_event_from_output_event',
+                  'burst_evaluations_above_number_of_blocks', 'burst_evaluations_above_3x_cblocks',
+                  'shortcut_to_name_beginning_like_not']
 ASSUMPTIONS = [
     "the simulation task is idle exactly when the virtual loop's ready queue is empty (it has "
     "no await inside the settling loop); the fixed point is also checked in the task that "
@@ -120,6 +146,10 @@ ASSUMPTIONS = [
     "semantics are C17/C20); what a CBlock's event does to its destination is C02",
     "Compare started exactly half-way between low and high: both outputs accepted (the "
     "documentation does not decide)",
+    "an 'instability' verdict for an acyclic network is a violation only if fewer than "
+    "2 x (number of all blocks) evaluations were made in that burst (smallest reading of "
+    "docs/errors.rst 'propagates through the whole circuit several times'; the code uses 3); "
+    "beyond that margin the run ends unjudged",
 ]
 
 
@@ -129,12 +159,19 @@ def gen(rng, tier, index=0):
         spec, ops = circlib.gen_small(rng, index)
         return {'knobs': knobs, 'spec': spec, 'ops': ops, 'pre': [], 'explicit_finalize': False,
                 'small': index}
-    big = tier == 'thorough' and rng.random() < 0.3
-    spec = circlib.gen_spec(rng, max_cblocks=14 if big else 8)
-    ops = circlib.gen_ops(rng, spec)
+    if rng.random() < 0.2:
+        # chains of CBlock -> SBlock event feedback with wide CBlocks re-evaluated per round
+        spec = circlib.gen_chain_spec(rng)
+        ops = circlib.gen_ops(rng, spec, max_bursts=5, focus='q0')
+    else:
+        big = tier == 'thorough' and rng.random() < 0.3
+        spec = circlib.gen_spec(rng, max_cblocks=14 if big else 8)
+        ops = circlib.gen_ops(rng, spec)
     pre = circlib.gen_pre(rng, spec)
-    return {'knobs': knobs, 'spec': spec, 'ops': ops, 'pre': pre,
+    plan = {'knobs': knobs, 'spec': spec, 'ops': ops, 'pre': pre,
             'explicit_finalize': rng.random() < 0.15, 'small': None}
+    circlib.rename_plan(rng, plan, prob=0.5 if rng.random() < 0.6 else 0.0)
+    return plan
 
 
 def execute(plan, trace=False):
@@ -187,6 +224,11 @@ def execute(plan, trace=False):
                 await circuit.wait_init()
             except edzed.EdzedInvalidState as err:
                 cause = circuit.error
+                if sim.is_instability(cause):
+                    verdict = sim.judge_abort(cause)
+                    if verdict:
+                        run.violate(verdict[0], 'start-up burst: ' + verdict[1])
+                    return
                 run.violate(f"C01/start-failed/{type(cause).__name__}",
                             f"a valid circuit could not be started: {circlib.cerr(cause)}")
                 return
@@ -223,10 +265,9 @@ def execute(plan, trace=False):
                 err = exc
             run.log('stopped', circlib.cerr(err))
             if err is not None:
-                site = f"eval:{sim.eval_exc[0]}" if sim.eval_exc else 'other'
-                run.violate(f"C01/simulation-aborted/{type(err).__name__}",
-                            f"the simulation of a valid acyclic circuit ended with {circlib.cerr(err)} "
-                            f"({site})")
+                verdict = sim.judge_abort(err)
+                if verdict:
+                    run.violate(*verdict)
 
         run.run(main())
         if run.main_exc is not None:
